@@ -86,6 +86,10 @@ pub fn tau_code(u: &::whirlpool::manager::tick_array_manager::TickArrayUpdate) -
     )
 }
 
+fn hist_oracle_clone_shell(w: &World) -> World {
+    crate::hist_oracle::clone_world(w)
+}
+
 pub const DYN_MAX: usize = 8 + 4 + 32 + 16 + 113 * 88;
 
 impl World {
@@ -107,7 +111,7 @@ impl World {
         let tia = self.ticks_in_array();
         tick.div_euclid(tia) * tia
     }
-    fn new_array(&self, start: i32) -> ArrayAcc {
+    pub fn new_array(&self, start: i32) -> ArrayAcc {
         let idx = start.div_euclid(self.ticks_in_array());
         let dynamic = match self.arrmode {
             0 => false,
@@ -495,7 +499,15 @@ impl World {
             swap(&w, &mut seq, amount, limit, ein, dir, self.now, &self.af).map_err(anchor_err_name)?
         };
         self.last_trace = ::whirlpool::manager::swap_manager::verif_trace::take();
-        // token movement as in swap_utils::update_and_swap_whirlpool
+        let out = self.commit_swap(w, &update, dir)?;
+        for (s, c) in starts.iter().zip(copies.into_iter()) {
+            *self.arrays.get(s).unwrap().data.borrow_mut() = c.data.into_inner();
+        }
+        Ok(out)
+    }
+
+    /// token movement and pool update as in swap_utils::update_and_swap_whirlpool
+    fn commit_swap(&mut self, mut w: Whirlpool, update: &::whirlpool::manager::swap_manager::PostSwapUpdate, dir: bool) -> Result<(String, SwapOutcome), String> {
         let (va, vb) = if dir {
             if (update.amount_b as u128) > self.vault_b {
                 return Err("InsufficientFunds".into());
@@ -530,12 +542,153 @@ impl World {
             self.trader_a += update.amount_a as i128;
             self.trader_b -= update.amount_b as i128;
         }
-        for (s, c) in starts.iter().zip(copies.into_iter()) {
-            *self.arrays.get(s).unwrap().data.borrow_mut() = c.data.into_inner();
-        }
         self.last_swap_report = (update.amount_a, update.amount_b, update.lp_fee, update.next_protocol_fee);
         let o = SwapOutcome { amount_a: update.amount_a, amount_b: update.amount_b, lp_fee: update.lp_fee, protocol_fee: update.next_protocol_fee };
         Ok((format!("{} {} {} {}", update.amount_a, update.amount_b, update.lp_fee, update.next_protocol_fee), o))
+    }
+
+    pub fn array_is_empty(&self, start: i32) -> bool {
+        match self.arrays.get(&start) {
+            None => true,
+            Some(acc) => {
+                let ts = self.wp().tick_spacing;
+                let v = World::anchor_view(acc);
+                (0..88).all(|k| v.get_tick(start + k * ts as i32, ts).map(|t| !t.initialized).unwrap_or(true))
+            }
+        }
+    }
+
+    /// a copy of the array in the OTHER encoding (fixed <-> dynamic), same ticks
+    fn converted(&self, src: &ArrayAcc, start: i32, to_dynamic: bool) -> ArrayAcc {
+        let ts = self.wp().tick_spacing;
+        let dst = {
+            let mut w2 = hist_oracle_clone_shell(self);
+            w2.arrmode = if to_dynamic { 1 } else { 0 };
+            w2.new_array(start)
+        };
+        {
+            let s = World::anchor_view(src);
+            let mut d = World::anchor_view(&dst);
+            for k in 0..88 {
+                let ti = start + k * ts as i32;
+                if let Ok(t) = s.get_tick(ti, ts) {
+                    if t.initialized {
+                        d.update_tick(ti, ts, &TickUpdate::from(t)).unwrap();
+                    }
+                }
+            }
+        }
+        dst
+    }
+
+    /// C10: the swap through the REAL account-packaging layer (SparseSwapTickSequenceBuilder) with the
+    /// given supplied accounts: (start, kind) with kind s = the stored array, c = the stored array
+    /// re-encoded (fixed <-> dynamic), u = an empty system-owned account at the array's PDA (only for
+    /// arrays without initialized ticks), x = an array of another pool, o = an empty account elsewhere
+    fn do_pswap(&mut self, amount: u64, limit: u128, ein: bool, dir: bool, entries: &[(i32, char)]) -> Result<(String, SwapOutcome), String> {
+        use anchor_lang::prelude::{Account, AccountInfo, Pubkey};
+        let program_id = ::whirlpool::ID;
+        let system_id = anchor_lang::solana_program::system_program::ID;
+        let pool_key = self.key;
+        let pda = move |start: i32| Pubkey::find_program_address(&[b"tick_array", pool_key.as_ref(), start.to_string().as_bytes()], &program_id).0;
+        // materialize the accounts
+        struct Mat {
+            key: Pubkey,
+            owner: Pubkey,
+            lamports: u64,
+            data: Vec<u8>,
+            start: i32,
+            kind: char,
+            dynamic: bool,
+        }
+        let mut mats: Vec<Mat> = vec![];
+        for (i, (start, kind)) in entries.iter().enumerate() {
+            let mut kind = *kind;
+            if kind == 'u' && !self.array_is_empty(*start) {
+                kind = 's';
+            }
+            match kind {
+                's' | 'c' | 'x' => {
+                    self.ensure_array(*start);
+                    let stored = &self.arrays[start];
+                    let acc = if kind == 'c' { self.converted(stored, *start, !stored.dynamic) } else { ArrayAcc { data: RefCell::new(stored.data.borrow().clone()), dynamic: stored.dynamic } };
+                    let mut data = acc.data.into_inner();
+                    let mut key = pda(*start);
+                    if kind == 'x' {
+                        // an array of another whirlpool
+                        let other = Pubkey::new_from_array([8u8; 32]);
+                        if acc.dynamic {
+                            data[12..44].copy_from_slice(other.as_ref());
+                        } else {
+                            let n = data.len();
+                            data[n - 32..].copy_from_slice(other.as_ref());
+                        }
+                        key = Pubkey::new_from_array([200 + (i as u8 % 50); 32]);
+                    }
+                    mats.push(Mat { key, owner: program_id, lamports: 1, data, start: *start, kind, dynamic: acc.dynamic });
+                }
+                'u' => mats.push(Mat { key: pda(*start), owner: system_id, lamports: 0, data: vec![], start: *start, kind, dynamic: false }),
+                _ => mats.push(Mat { key: Pubkey::new_from_array([150 + (i as u8 % 50); 32]), owner: system_id, lamports: 0, data: vec![], start: *start, kind: 'o', dynamic: false }),
+            }
+        }
+        // duplicates of one account must be ONE account (same key => same data)
+        let mut wp_data = self.wp.clone();
+        let mut wp_lamports = 1u64;
+        let wp_key = self.key;
+        let wp_info = AccountInfo::new(&wp_key, false, true, &mut wp_lamports, &mut wp_data[..], &program_id, false, 0);
+        let whirlpool: Account<Whirlpool> = Account::try_from(&wp_info).map_err(anchor_err_name)?;
+        let mut seen: BTreeMap<Pubkey, usize> = BTreeMap::new();
+        let mut uniq: Vec<usize> = vec![];
+        let mut order: Vec<usize> = vec![]; // entry index -> index into uniq infos
+        for (i, m) in mats.iter().enumerate() {
+            let u = *seen.entry(m.key).or_insert_with(|| {
+                uniq.push(i);
+                uniq.len() - 1
+            });
+            order.push(u);
+        }
+        let keys: Vec<Pubkey> = uniq.iter().map(|i| mats[*i].key).collect();
+        let owners: Vec<Pubkey> = uniq.iter().map(|i| mats[*i].owner).collect();
+        let mut lams: Vec<u64> = uniq.iter().map(|i| mats[*i].lamports).collect();
+        let mut datas: Vec<Vec<u8>> = uniq.iter().map(|i| mats[*i].data.clone()).collect();
+        let infos: Vec<AccountInfo> = {
+            let mut v = vec![];
+            let mut li = lams.iter_mut();
+            let mut di = datas.iter_mut();
+            for k in 0..uniq.len() {
+                v.push(AccountInfo::new(&keys[k], false, true, li.next().unwrap(), &mut di.next().unwrap()[..], &owners[k], false, 0));
+            }
+            v
+        };
+        let supplied: Vec<AccountInfo> = order.iter().map(|u| infos[*u].clone()).collect();
+        let n_static = supplied.len().min(3);
+        let stat = supplied[..n_static].to_vec();
+        let supp = if supplied.len() > 3 { Some(supplied[3..].to_vec()) } else { None };
+        let _ = ::whirlpool::manager::swap_manager::verif_trace::take();
+        let update = {
+            let builder = ::whirlpool::util::SparseSwapTickSequenceBuilder::new(stat, supp);
+            let mut seq = builder.try_build(&whirlpool, dir).map_err(anchor_err_name)?;
+            swap(&whirlpool, &mut seq, amount, limit, ein, dir, self.now, &self.af).map_err(anchor_err_name)?
+        };
+        self.last_trace = ::whirlpool::manager::swap_manager::verif_trace::take();
+        drop(supplied);
+        drop(infos);
+        let w = self.wp();
+        let out = self.commit_swap(w, &update, dir)?;
+        // write the arrays back (re-encoding converted ones)
+        for (k, i) in uniq.iter().enumerate() {
+            let m = &mats[*i];
+            match m.kind {
+                's' => *self.arrays.get(&m.start).unwrap().data.borrow_mut() = datas[k].clone(),
+                'c' => {
+                    let modified = ArrayAcc { data: RefCell::new(datas[k].clone()), dynamic: m.dynamic };
+                    let back = self.converted(&modified, m.start, !m.dynamic);
+                    *self.arrays.get(&m.start).unwrap().data.borrow_mut() = back.data.into_inner();
+                }
+                _ => {}
+            }
+        }
+        Ok(out)
     }
 
     fn set_reward(&mut self, i: usize, emissions: u128, topup: u64) -> Result<String, String> {
@@ -772,6 +925,57 @@ impl Hist {
                         }
                     }
                 };
+                if r.chance(1, 2) {
+                    // C10: the same swap through the account-packaging layer, with a random packaging
+                    let step = if dir { -tia } else { tia };
+                    let mut entries: Vec<(i32, char)> = vec![];
+                    let s0b = if dir { cur.div_euclid(tia) * tia } else if cur + ts as i32 >= cur.div_euclid(tia) * tia + tia { cur.div_euclid(tia) * tia + tia } else { cur.div_euclid(tia) * tia };
+                    for k in 0..3 {
+                        let st = s0b + k * step;
+                        let kind = if w.array_is_empty(st) && r.chance(1, 2) {
+                            'u'
+                        } else if r.chance(1, 4) {
+                            'c'
+                        } else {
+                            's'
+                        };
+                        entries.push((st, kind));
+                    }
+                    if r.chance(1, 15) {
+                        let k = r.below(entries.len() as u64) as usize;
+                        entries.remove(k); // a required array is missing
+                    }
+                    if r.chance(1, 4) {
+                        let k = r.below(entries.len() as u64) as usize;
+                        let e = entries[k];
+                        entries.push(e); // the same account twice
+                    }
+                    if r.chance(1, 3) {
+                        // extra arrays further along / behind
+                        for k in [3, 4, -1] {
+                            if r.chance(1, 2) {
+                                let st = s0b + k * step;
+                                entries.push((st, if w.array_is_empty(st) { 'u' } else { 's' }));
+                            }
+                        }
+                    }
+                    if r.chance(1, 10) {
+                        entries.push((0, 'o'));
+                    }
+                    if r.chance(1, 40) {
+                        entries.push((s0b + 5 * step, 'x'));
+                    }
+                    // any order
+                    for i in (1..entries.len()).rev() {
+                        let j = r.below(i as u64 + 1) as usize;
+                        entries.swap(i, j);
+                    }
+                    let mut s = format!("H pswap {} {} {} {} {}", amt, limit, b(ein), b(dir), entries.len());
+                    for (st, k) in entries {
+                        s += &format!(" {}:{}", st, k);
+                    }
+                    return s;
+                }
                 let mut s = format!("H swap {} {} {} {} {}", amt, limit, b(ein), b(dir), starts.len());
                 for x in starts {
                     s += &format!(" {}", x);
@@ -817,6 +1021,37 @@ impl Family for Hist {
             None => return "bad-op".into(),
         };
         let pre = crate::hist_oracle::snapshot(w);
+        // C10: the canonical packaging of the same swap on a copy of the world
+        let canonical: Option<(World, Result<String, String>)> = if t[1] == "pswap" {
+            let n: usize = t[6].parse().unwrap();
+            let entries: Vec<(i32, char)> = (0..n)
+                .map(|k| {
+                    let (a, bb) = t[7 + k].split_once(':').unwrap();
+                    (a.parse().unwrap(), bb.chars().next().unwrap())
+                })
+                .collect();
+            if entries.iter().any(|e| e.1 == 'x') {
+                None
+            } else {
+                let wp0 = w.wp();
+                let (cur, tsi) = (wp0.tick_current_index, wp0.tick_spacing as i32);
+                let tia = 88 * tsi;
+                let dir = pb(t[5]);
+                let base = cur.div_euclid(tia) * tia;
+                let first = if dir || cur + tsi < base + tia { base } else { base + tia };
+                let canon: Vec<(i32, char)> = (0..3)
+                    .map(|k| first + if dir { -k * tia } else { k * tia })
+                    .filter(|s| Tick::check_is_valid_start_tick(*s, wp0.tick_spacing))
+                    .take_while(|s| entries.iter().any(|e| e.0 == *s && e.1 != 'o'))
+                    .map(|s| (s, 's'))
+                    .collect();
+                let mut c = crate::hist_oracle::clone_world(w);
+                let r = std::panic::catch_unwind(std::panic::AssertUnwindSafe(|| c.do_pswap(p64(t[2]), p128(t[3]), pb(t[4]), dir, &canon).map(|x| x.0))).unwrap_or_else(|_| Err("Panic".to_string()));
+                Some((c, r))
+            }
+        } else {
+            None
+        };
         let res: Result<String, String> = std::panic::catch_unwind(std::panic::AssertUnwindSafe(|| match t[1] {
             "open" => {
                 let id: u32 = t[2].parse().unwrap();
@@ -855,6 +1090,16 @@ impl Family for Hist {
                 let starts: Vec<i32> = (0..n).map(|k| t[7 + k].parse().unwrap()).collect();
                 w.do_swap(p64(t[2]), p128(t[3]), pb(t[4]), pb(t[5]), &starts).map(|x| x.0)
             }
+            "pswap" => {
+                let n: usize = t[6].parse().unwrap();
+                let entries: Vec<(i32, char)> = (0..n)
+                    .map(|k| {
+                        let (a, bb) = t[7 + k].split_once(':').unwrap();
+                        (a.parse().unwrap(), bb.chars().next().unwrap())
+                    })
+                    .collect();
+                w.do_pswap(p64(t[2]), p128(t[3]), pb(t[4]), pb(t[5]), &entries).map(|x| x.0)
+            }
             "reward" => w.set_reward(t[2].parse().unwrap(), p128(t[3]), p64(t[4])),
             "crew" => w.collect_reward(t[2].parse().unwrap(), t[3].parse().unwrap()),
             _ => Err("bad-op".to_string()),
@@ -866,6 +1111,17 @@ impl Family for Hist {
             ctx.tag(&format!("err_{}", e));
         } else {
             ctx.nontrivial(&format!("{}{}", line, w.now));
+        }
+        if let Some((c, r)) = canonical {
+            if r != res || c.digest() != w.digest() {
+                ctx.viol(format!(
+                    "C10 packaging: the swap with the supplied accounts gives {:?}, the same swap with the required arrays supplied once, in order, as stored gives {:?}{}",
+                    res,
+                    r,
+                    if c.digest() != w.digest() { " and a different pool / tick state" } else { "" }
+                ));
+            }
+            ctx.tag("c10_packaging_compared");
         }
         crate::hist_oracle::after_op(w, &t, &res, &pre, ctx);
         match res {
